@@ -307,37 +307,37 @@ package mux
 //@   ensures [C17] accepted: callresult("tree.Tree.Add", 1, 0) == nil
 //
 //@ fn Router.Get
-//@   requires r != nil && r.tree != nil
+//@   requires routerOK(r) && allSafe() && sepOK()
 //@   callsonly [C19] mux.Router.Handle
 //@   atcall mux.Router.Handle [C19] delegate: arg0 == r && arg1 == pattern && arg2 == h && arg3 == m && one(arg4, "GET")
 //@   ensures [C19] self: result == r
 //
 //@ fn Router.Post
-//@   requires r != nil && r.tree != nil
+//@   requires routerOK(r) && allSafe() && sepOK()
 //@   callsonly [C19] mux.Router.Handle
 //@   atcall mux.Router.Handle [C19] delegate: arg0 == r && arg1 == pattern && arg2 == h && arg3 == m && one(arg4, "POST")
 //@   ensures [C19] self: result == r
 //
 //@ fn Router.Delete
-//@   requires r != nil && r.tree != nil
+//@   requires routerOK(r) && allSafe() && sepOK()
 //@   callsonly [C19] mux.Router.Handle
 //@   atcall mux.Router.Handle [C19] delegate: arg0 == r && arg1 == pattern && arg2 == h && arg3 == m && one(arg4, "DELETE")
 //@   ensures [C19] self: result == r
 //
 //@ fn Router.Put
-//@   requires r != nil && r.tree != nil
+//@   requires routerOK(r) && allSafe() && sepOK()
 //@   callsonly [C19] mux.Router.Handle
 //@   atcall mux.Router.Handle [C19] delegate: arg0 == r && arg1 == pattern && arg2 == h && arg3 == m && one(arg4, "PUT")
 //@   ensures [C19] self: result == r
 //
 //@ fn Router.Patch
-//@   requires r != nil && r.tree != nil
+//@   requires routerOK(r) && allSafe() && sepOK()
 //@   callsonly [C19] mux.Router.Handle
 //@   atcall mux.Router.Handle [C19] delegate: arg0 == r && arg1 == pattern && arg2 == h && arg3 == m && one(arg4, "PATCH")
 //@   ensures [C19] self: result == r
 //
 //@ fn Router.Any
-//@   requires r != nil && r.tree != nil
+//@   requires routerOK(r) && allSafe() && sepOK()
 //@   callsonly [C19] mux.Router.Handle
 //@   atcall mux.Router.Handle [C19] delegate: arg0 == r && arg1 == pattern && arg2 == h && arg3 == m && len(arg4) == 0
 //@   ensures [C19] self: result == r
@@ -368,49 +368,49 @@ package mux
 //@   ensures [C19] cloned: len(m) > 0 ==> fresh(result.ms)
 //
 //@ fn Prefix.Handle
-//@   requires p != nil && p.router != nil && p.router.tree != nil
+//@   requires p != nil && routerOK(p.router) && allSafe() && sepOK()
 //@   callsonly [C19] mux.Prefix.Pattern, slices.Concat, mux.Router.Handle
 //@   atcall mux.Router.Handle [C19,C09] delegate: arg0 == p.router && arg1 == p.pattern + pattern && arg2 == h && isConcat(arg3, m, p.ms) && arg4 == methods
 //@   ensures [C19] self: result == p
 //
 //@ fn Prefix.Get
-//@   requires p != nil && p.router != nil && p.router.tree != nil
+//@   requires p != nil && routerOK(p.router) && allSafe() && sepOK()
 //@   callsonly [C19] mux.Prefix.Handle
 //@   atcall mux.Prefix.Handle [C19] delegate: arg0 == p && arg1 == pattern && arg2 == h && arg3 == m && one(arg4, "GET")
 //@   ensures [C19] self: result == p
 //
 //@ fn Prefix.Post
-//@   requires p != nil && p.router != nil && p.router.tree != nil
+//@   requires p != nil && routerOK(p.router) && allSafe() && sepOK()
 //@   callsonly [C19] mux.Prefix.Handle
 //@   atcall mux.Prefix.Handle [C19] delegate: arg0 == p && arg1 == pattern && arg2 == h && arg3 == m && one(arg4, "POST")
 //@   ensures [C19] self: result == p
 //
 //@ fn Prefix.Delete
-//@   requires p != nil && p.router != nil && p.router.tree != nil
+//@   requires p != nil && routerOK(p.router) && allSafe() && sepOK()
 //@   callsonly [C19] mux.Prefix.Handle
 //@   atcall mux.Prefix.Handle [C19] delegate: arg0 == p && arg1 == pattern && arg2 == h && arg3 == m && one(arg4, "DELETE")
 //@   ensures [C19] self: result == p
 //
 //@ fn Prefix.Put
-//@   requires p != nil && p.router != nil && p.router.tree != nil
+//@   requires p != nil && routerOK(p.router) && allSafe() && sepOK()
 //@   callsonly [C19] mux.Prefix.Handle
 //@   atcall mux.Prefix.Handle [C19] delegate: arg0 == p && arg1 == pattern && arg2 == h && arg3 == m && one(arg4, "PUT")
 //@   ensures [C19] self: result == p
 //
 //@ fn Prefix.Patch
-//@   requires p != nil && p.router != nil && p.router.tree != nil
+//@   requires p != nil && routerOK(p.router) && allSafe() && sepOK()
 //@   callsonly [C19] mux.Prefix.Handle
 //@   atcall mux.Prefix.Handle [C19] delegate: arg0 == p && arg1 == pattern && arg2 == h && arg3 == m && one(arg4, "PATCH")
 //@   ensures [C19] self: result == p
 //
 //@ fn Prefix.Any
-//@   requires p != nil && p.router != nil && p.router.tree != nil
+//@   requires p != nil && routerOK(p.router) && allSafe() && sepOK()
 //@   callsonly [C19] mux.Prefix.Handle
 //@   atcall mux.Prefix.Handle [C19] delegate: arg0 == p && arg1 == pattern && arg2 == h && arg3 == m && len(arg4) == 0
 //@   ensures [C19] self: result == p
 //
 //@ fn Prefix.Remove
-//@   requires p != nil && p.router != nil && p.router.tree != nil
+//@   requires p != nil && routerOK(p.router) && allSafe() && sepOK()
 //@   callsonly [C19] mux.Prefix.Pattern, mux.Router.Remove
 //@   atcall mux.Router.Remove [C19] delegate: arg0 == p.router && arg1 == p.pattern + pattern && arg2 == methods
 //
@@ -443,54 +443,54 @@ package mux
 //@   ensures [C19] value: result == p.router
 //
 //@ fn Resource.Handle
-//@   requires r != nil && r.router != nil && r.router.tree != nil
+//@   requires r != nil && routerOK(r.router) && allSafe() && sepOK()
 //@   callsonly [C19] slices.Concat, mux.Router.Handle
 //@   atcall mux.Router.Handle [C19,C09] delegate: arg0 == r.router && arg1 == r.pattern && arg2 == h && isConcat(arg3, m, r.ms) && arg4 == methods
 //@   ensures [C19] self: result == r
 //
 //@ fn Resource.Get
-//@   requires r != nil && r.router != nil && r.router.tree != nil
+//@   requires r != nil && routerOK(r.router) && allSafe() && sepOK()
 //@   callsonly [C19] mux.Resource.Handle
 //@   atcall mux.Resource.Handle [C19] delegate: arg0 == r && arg1 == h && arg2 == m && one(arg3, "GET")
 //@   ensures [C19] self: result == r
 //
 //@ fn Resource.Post
-//@   requires r != nil && r.router != nil && r.router.tree != nil
+//@   requires r != nil && routerOK(r.router) && allSafe() && sepOK()
 //@   callsonly [C19] mux.Resource.Handle
 //@   atcall mux.Resource.Handle [C19] delegate: arg0 == r && arg1 == h && arg2 == m && one(arg3, "POST")
 //@   ensures [C19] self: result == r
 //
 //@ fn Resource.Delete
-//@   requires r != nil && r.router != nil && r.router.tree != nil
+//@   requires r != nil && routerOK(r.router) && allSafe() && sepOK()
 //@   callsonly [C19] mux.Resource.Handle
 //@   atcall mux.Resource.Handle [C19] delegate: arg0 == r && arg1 == h && arg2 == m && one(arg3, "DELETE")
 //@   ensures [C19] self: result == r
 //
 //@ fn Resource.Put
-//@   requires r != nil && r.router != nil && r.router.tree != nil
+//@   requires r != nil && routerOK(r.router) && allSafe() && sepOK()
 //@   callsonly [C19] mux.Resource.Handle
 //@   atcall mux.Resource.Handle [C19] delegate: arg0 == r && arg1 == h && arg2 == m && one(arg3, "PUT")
 //@   ensures [C19] self: result == r
 //
 //@ fn Resource.Patch
-//@   requires r != nil && r.router != nil && r.router.tree != nil
+//@   requires r != nil && routerOK(r.router) && allSafe() && sepOK()
 //@   callsonly [C19] mux.Resource.Handle
 //@   atcall mux.Resource.Handle [C19] delegate: arg0 == r && arg1 == h && arg2 == m && one(arg3, "PATCH")
 //@   ensures [C19] self: result == r
 //
 //@ fn Resource.Any
-//@   requires r != nil && r.router != nil && r.router.tree != nil
+//@   requires r != nil && routerOK(r.router) && allSafe() && sepOK()
 //@   callsonly [C19] mux.Resource.Handle
 //@   atcall mux.Resource.Handle [C19] delegate: arg0 == r && arg1 == h && arg2 == m && len(arg3) == 0
 //@   ensures [C19] self: result == r
 //
 //@ fn Resource.Remove
-//@   requires r != nil && r.router != nil && r.router.tree != nil
+//@   requires r != nil && routerOK(r.router) && allSafe() && sepOK()
 //@   callsonly [C19] mux.Router.Remove
 //@   atcall mux.Router.Remove [C19] delegate: arg0 == r.router && arg1 == r.pattern && arg2 == methods
 //
 //@ fn Resource.Clean
-//@   requires r != nil && r.router != nil && r.router.tree != nil
+//@   requires r != nil && routerOK(r.router) && allSafe() && sepOK()
 //@   callsonly [C19] mux.Router.Remove
 //@   atcall mux.Router.Remove [C19] delegate: arg0 == r.router && arg1 == r.pattern && len(arg2) == 0
 //
